@@ -68,6 +68,7 @@ theorem noDesigs_cons' {ds : List Desig} {i : Ini} {rest : Items} (h : noDesigs 
 
 section
 variable {nu : Bool} {root : Place} (hg : PlGeo nu root) (hr : root.before = 0 ∧ root.after = 0)
+  {tys : List Ty} (htys : ∀ x ∈ subTys root.ty, x ∈ tys)
 include hg
 
 theorem focus_K {st st' : St} (h : K root st) (e : focus st = .ok st') :
@@ -124,17 +125,23 @@ theorem advance_K : ∀ (f : Nat) {st st' : St}, K root st → (∀ c, st.cur = 
           omega) e1
         exact ⟨r1, by rw [r2, hl1], by rw [r3, hf1.cur]⟩
 
-theorem desigStep_K (hnu : nu = true) {st st' : St} {d : Desig} (h : K root st) (e : desigStep st d = .ok st') :
+include htys in
+theorem desigStep_K {st st' : St} {d : Desig} (hd : desigOK tys d = true) (h : K root st) (e : desigStep st d = .ok st') :
     K root st' ∧ st'.log = st.log ∧ st'.cur = st.cur ∧ st.sub < st'.sub := by
-  subst hnu
   obtain ⟨pl, hs⟩ := h.stk
   obtain ⟨ps, hw, hgk⟩ := hs.places hg st.sub (Nat.le_refl _)
-  obtain ⟨path, _, hf⟩ := desigStep_spec hs.ty hs.off hgk.wf (h.flat _) e
+  obtain ⟨path, hres, hf⟩ := desigStep_spec hs.ty hs.off hgk.wf (h.flat _) e
+  have hfp : firstPath (pl st.sub).ty path = true := by
+    have hmem := htys _ (walk_subTys ps hw)
+    unfold desigOK at hd
+    have := List.all_eq_true.1 hd _ hmem
+    rw [hres] at this
+    exact this
   obtain ⟨q', hch, hsp⟩ := hf.chain
   obtain ⟨pl', p0, pm, plv⟩ := stk_chain hch pl hs.root rfl
     (fun k hk => by
       obtain ⟨pos, hl, hc⟩ := hs.lvl k hk
-      exact ⟨pos, hl.frame hf.frame hk, hc⟩) hgk
+      exact ⟨pos, hl.frame hf.frame hk, hc⟩) hfp
   have hlt : st.sub < st'.sub := by
     have h1 := hch.len
     have h2 : 0 < path.length := List.length_pos_iff.2 hf.ne
@@ -148,23 +155,26 @@ theorem desigStep_K (hnu : nu = true) {st st' : St} {d : Desig} (h : K root st) 
     have := h.cur c hc'
     omega
 
-theorem desigFold_K (hnu : nu = true) : ∀ (ds : List Desig) {st st' : St}, K root st → ds.foldlM desigStep st = .ok st' →
+include htys in
+theorem desigFold_K : ∀ (ds : List Desig) {st st' : St}, (∀ d ∈ ds, desigOK tys d = true) → K root st →
+    ds.foldlM desigStep st = .ok st' →
     K root st' ∧ st'.log = st.log ∧ st'.cur = st.cur ∧ st.sub ≤ st'.sub := by
   intro ds
   induction ds with
-  | nil => intro st st' h e; cases e; exact ⟨h, rfl, rfl, Nat.le_refl _⟩
+  | nil => intro st st' _ h e; cases e; exact ⟨h, rfl, rfl, Nat.le_refl _⟩
   | cons d ds ih =>
-    intro st st' h e
+    intro st st' hds h e
     rw [List.foldlM_cons] at e
     cases hd : desigStep st d with
     | error er => rw [hd] at e; cases e
     | ok st1 =>
       rw [hd] at e
-      obtain ⟨a1, a2, a3, a4⟩ := desigStep_K hg hnu h hd
-      obtain ⟨b1, b2, b3, b4⟩ := ih a1 e
+      obtain ⟨a1, a2, a3, a4⟩ := desigStep_K hg htys (hds d List.mem_cons_self) h hd
+      obtain ⟨b1, b2, b3, b4⟩ := ih (fun x hx => hds x (List.mem_cons_of_mem _ hx)) a1 e
       exact ⟨b1, by rw [b2, a2], by rw [b3, a3], by omega⟩
 
-theorem designator_K (hnu : nu = true) {st st' : St} {ds : List Desig} (h : K root st)
+include htys in
+theorem designator_K {st st' : St} {ds : List Desig} (hds : ∀ d ∈ ds, desigOK tys d = true) (h : K root st)
     (e : designator st ds = .ok st') : K root st' ∧ st'.log = st.log ∧ st'.cur = st.cur := by
   unfold designator at e
   have hc : st.cur.getD 0 ≤ st.sub := by
@@ -175,7 +185,7 @@ theorem designator_K (hnu : nu = true) {st st' : St} {ds : List Desig} (h : K ro
     h.pop rfl hc rfl rfl rfl (fun c hc' => by
       have : st.cur = some c := hc'
       rw [this]; simp)
-  obtain ⟨a1, a2, a3, _⟩ := desigFold_K hg hnu ds h0 e
+  obtain ⟨a1, a2, a3, _⟩ := desigFold_K hg htys ds hds h0 e
   exact ⟨a1, a2, a3⟩
 
 include hr
@@ -319,7 +329,8 @@ theorem openSt_K {st : St} (h : K root st) : K root (openSt st) := by
       exact ⟨pos, hl.of_obj (openSt_low st k (by omega)), hc⟩
 
 omit hr in
-theorem preStep_K {st st' : St} {ds : List Desig} (h : K root st) (hm : ds ≠ [] → nu = true)
+include htys in
+theorem preStep_K {st st' : St} {ds : List Desig} (h : K root st) (hm : ∀ d ∈ ds, desigOK tys d = true)
     (e : preStep st ds = .ok st') : K root st' := by
   unfold preStep at e
   split at e
@@ -327,7 +338,7 @@ theorem preStep_K {st st' : St} {ds : List Desig} (h : K root st) (hm : ds ≠ [
   · rename_i c hc
     split at e
     · rename_i hds
-      exact (designator_K hg (hm hds) h e).1
+      exact (designator_K hg htys hm h e).1
     · split at e
       · rename_i hne
         exact (advance_K hg 33 h (by
@@ -358,8 +369,10 @@ theorem enteredE_K {st st' : St} (h : K root st) (e : enteredE st = .ok st') : K
     · cases e; exact h
   · cases e; exact h
 
+include htys
+
 mutual
-  theorem itemBody_K : ∀ (i : Ini) (st st' : St), K root st → strsOK i = true → (nu = false → noDesig i = true) →
+  theorem itemBody_K : ∀ (i : Ini) (st st' : St), K root st → strsOK i = true → desigsOK tys i = true →
       itemBody st i = .ok st' → K root st'
     | .expr e, st, st', h, hso, _, he => exprBody_K hg hr 34 h hso he
     | .list .nil, st, st', h, _, _, he => by
@@ -394,19 +407,17 @@ mutual
           rw [hpi] at hb
           cases hb
           exact closeBrace_K hg (parseItems_K (.cons ds1 i1 r1) (openSt st2) st4 (openSt_K hg h2)
-            (by simpa only [strsOK] using hso) (fun hn => by simpa only [noDesig] using hnd hn) hpi)
+            (by simpa only [strsOK] using hso) (by simpa only [desigsOK] using hnd) hpi)
   theorem parseItems_K : ∀ (its : Items) (st st' : St), K root st → strsOKs its = true →
-      (nu = false → noDesigs its = true) → parseItems st its = .ok st' → K root st'
+      desigsOKs tys its = true → parseItems st its = .ok st' → K root st'
     | .nil, st, st', h, _, _, he => by rw [parseItems] at he; cases he; exact h
     | .cons ds i rest, st, st', h, hso, hnd, he => by
       obtain ⟨stp, sta, hpre, hbody, hrun⟩ := run_cons (show Run st (.cons ds i rest) st' from he)
       simp only [strsOKs, Bool.and_eq_true] at hso
-      have hp := preStep_K hg h (fun hds => by
-        cases nu with
-        | true => rfl
-        | false => exact absurd (noDesigs_cons' (hnd rfl)).1 hds) hpre
-      have ha := itemBody_K i stp sta hp hso.1 (fun hn => (noDesigs_cons' (hnd hn)).2.1) hbody
-      exact parseItems_K rest sta st' ha hso.2 (fun hn => (noDesigs_cons' (hnd hn)).2.2) hrun
+      simp only [desigsOKs, Bool.and_eq_true, List.all_eq_true] at hnd
+      have hp := preStep_K hg htys h hnd.1.1 hpre
+      have ha := itemBody_K i stp sta hp hso.1 hnd.1.2 hbody
+      exact parseItems_K rest sta st' ha hso.2 hnd.2 hrun
 end
 
 end
